@@ -1013,9 +1013,13 @@ Htagnewref(int32  file_id, /* IN: File ID the tag/refs are in */
     if ((tip_ptr = (tag_info **)tbbtdfind(file_rec->tag_tree, (void *)&base_tag, NULL)) == NULL)
         ret_value = 1;        /* The first available ref */
     else {                    /* found an existing tag */
+        int32 next_ref;
+
         tinfo_ptr = *tip_ptr; /* get the pointer to the tag info */
-        if ((ret_value = (uint16)bv_find_next_zero(tinfo_ptr->b)) == (uint16)FAIL)
+        if ((next_ref = bv_find_next_zero(tinfo_ptr->b)) == FAIL)
             HGOTO_ERROR(DFE_BVFIND, 0);
+        /* MAX_REF (65535) is a valid ref; beyond it every ref of this tag is in use */
+        ret_value = (next_ref > (int32)MAX_REF) ? (uint16)DFREF_NONE : (uint16)next_ref;
     }
 
 done:
